@@ -47,7 +47,7 @@ ASSUMPTIONS = [
     "NaN sentinel come back as float); values are compared elementwise",
 ]
 PROFILE = {
-    "quick": dict(examples=2000, shards=16, budget_s=90),
+    "quick": dict(examples=6000, shards=16, budget_s=90),
     "thorough": dict(examples=60000, shards=16, budget_s=900),
 }
 
